@@ -23,6 +23,8 @@ class Balancer:
         self._ast_hash_map = {}
         self._lower_bounds = {}
         self._upper_bounds = {}
+        self._moved_modulo = False
+        self._wrapping_keys = set()
 
         self.sat = True
         try:
@@ -43,6 +45,9 @@ class Balancer:
     def _replacements_iter(self):
         all_keys = set(self._lower_bounds.keys()) | set(self._upper_bounds.keys())
         for k in all_keys:
+            if k in self._wrapping_keys and (k not in self._lower_bounds or k not in self._upper_bounds):
+                # one end of a range that may wrap around says nothing without the other end
+                continue
             ast = self._ast_hash_map[k]
             max_int = (1 << len(ast)) - 1
             min_int = 0
@@ -241,6 +246,7 @@ class Balancer:
                 continue
 
             truism = Balancer._adjust_truism(truism)
+            truism = Balancer._nonstrict_truism(truism)
 
             assumptions = Balancer._get_assumptions(truism)
             if truism not in identified_assumptions and len(assumptions):
@@ -249,6 +255,7 @@ class Balancer:
                 identified_assumptions.update(assumptions)
 
             log.debug("Processing truism %s", truism)
+            self._moved_modulo = False
             balanced_truism = self._balance(truism)
             log.debug("... handling")
             self._handle(balanced_truism)
@@ -278,6 +285,30 @@ class Balancer:
         if t.args[0].cardinality == 1 and t.args[1].cardinality > 1:
             return Balancer._reverse_comparison(t)
         return t
+
+    @staticmethod
+    def _nonstrict_truism(t):
+        """
+        Turn a strict comparison with a single value into a non-strict one (x < c into x <= c - 1, x > c into x >= c + 1).
+        Balancing moves terms to the other side modulo 2**n; adding or subtracting the 1 only after that would be wrong
+        when the moved right-hand side has wrapped around.
+        """
+        if t.op not in ("ULT", "UGT", "SLT", "SGT") or Balancer._cardinality(t.args[1]) != 1:
+            return t
+        size = len(t.args[1])
+        value = claripy.backends.vsa.eval(t.args[1], 1)[0]
+        if t.op == "ULT":
+            extreme, op, new_value = 0, claripy.ULE, value - 1
+        elif t.op == "UGT":
+            extreme, op, new_value = (1 << size) - 1, claripy.UGE, value + 1
+        elif t.op == "SLT":
+            extreme, op, new_value = 1 << (size - 1), claripy.SLE, value - 1
+        else:
+            extreme, op, new_value = (1 << (size - 1)) - 1, claripy.SGE, value + 1
+        if value == extreme:
+            # nothing is beyond the extreme value
+            raise ClaripyBalancerUnsatError
+        return op(t.args[0], claripy.BVV(new_value, size))
 
     #
     # Assumptions management
@@ -367,8 +398,10 @@ class Balancer:
                         balanced = Balancer._balance_reverse(inner_aligned)
                     case "__add__":
                         balanced = Balancer._balance_add(inner_aligned)
+                        self._moved_modulo |= balanced is not inner_aligned
                     case "__sub__":
                         balanced = Balancer._balance_sub(inner_aligned)
+                        self._moved_modulo |= balanced is not inner_aligned
                     case "ZeroExt":
                         balanced = Balancer._balance_zeroext(inner_aligned)
                     case "SignExt":
@@ -429,6 +462,9 @@ class Balancer:
         new_lhs = truism.args[0].args[0]
         old_rhs = truism.args[1]
         other_adds = truism.args[0].args[1:]
+        if truism.op not in ("__eq__", "__ne__") and any(Balancer._cardinality(a) != 1 for a in other_adds):
+            # x - y <= c says nothing about x alone while y is not a single value (the difference wraps around)
+            return truism
         new_rhs = BV("__add__", (old_rhs, *other_adds), length=len(truism.args[0]))
         return Bool(truism.op, (new_lhs, new_rhs))
 
@@ -438,8 +474,12 @@ class Balancer:
         other_side = truism.args[1][len(truism.args[1]) - 1 : len(truism.args[1]) - num_zeroes]
 
         if claripy.backends.vsa.is_true(other_side == 0):
-            # We can safely eliminate this layer of ZeroExt
-            return Bool(truism.op, (inner, truism.args[1][len(truism.args[1]) - num_zeroes - 1 : 0]))
+            # We can safely eliminate this layer of ZeroExt. Both sides are non-negative in the wider width, so a signed
+            # comparison of them is the unsigned comparison of their low parts
+            return Bool(
+                Balancer._unsigned_op.get(truism.op, truism.op),
+                (inner, truism.args[1][len(truism.args[1]) - num_zeroes - 1 : 0]),
+            )
 
         return truism
 
@@ -460,6 +500,10 @@ class Balancer:
     def _balance_extract(truism):
         high, low, inner = truism.args[0].args
         inner_size = len(inner)
+
+        if truism.op in Balancer._unsigned_op:
+            # the sign bit of the extracted part is not the sign bit of the whole value
+            return truism
 
         if high < inner_size - 1:
             left_msb = inner[inner_size - 1 : high + 1]
@@ -488,13 +532,8 @@ class Balancer:
             new_right = claripy.Concat(truism.args[1], claripy.BVV(0, len(left_lsb)))
             return Bool(truism.op, (new_left, new_right))
 
-        if low == 0 and truism.args[1].op == "BVV" and truism.op not in {"SGE", "SLE", "SGT", "SLT"}:
-            # single-valued rhs value with an unsigned operator
-            # Eliminate Extract on lhs and zero-extend the value on rhs
-            new_left = inner
-            new_right = claripy.ZeroExt(inner.size() - truism.args[1].size(), truism.args[1])
-            return Bool(truism.op, (new_left, new_right))
-
+        # (a comparison of the low bits alone says nothing about the whole value unless the high bits are known to be
+        # zero, which is the case handled above)
         return truism
 
     @staticmethod
@@ -536,7 +575,8 @@ class Balancer:
             # we can cut these guys off!
             remaining_left = claripy.Concat(*truism.args[0].args[1:])
             remaining_right = truism.args[1][size - len(left_msb) - 1 : 0]
-            return Bool(truism.op, (remaining_left, remaining_right))
+            # both sides are non-negative in the full width: signed order there is unsigned order of the rest
+            return Bool(Balancer._unsigned_op.get(truism.op, truism.op), (remaining_left, remaining_right))
         # TODO: handle non-zero single-valued cases
         return truism
 
@@ -551,6 +591,12 @@ class Balancer:
         if len(shift_amount_values) != 1:
             return truism
         shift_amount = shift_amount_values[0]
+
+        if shift_amount <= 0 or shift_amount >= len(lhs):
+            return truism
+        if Balancer._max(expr) >= 1 << (len(lhs) - shift_amount):
+            # the shift may drop set bits of the shifted value, so the result does not bound it
+            return truism
 
         rhs_lower = claripy.Extract(shift_amount - 1, 0, rhs)
         rhs_lower_values = claripy.backends.vsa.eval(rhs_lower, 2)
@@ -599,7 +645,10 @@ class Balancer:
     def _handle(self, truism):
         log.debug("Handling %s", truism)
 
-        if claripy.backends.vsa.is_false(truism):
+        # once a term was moved to the other side modulo 2**n, an order comparison is one end of a range that may wrap
+        # around; on its own it is not a statement that can be false
+        modular = self._moved_modulo and truism.op not in ("__eq__", "__ne__")
+        if not modular and claripy.backends.vsa.is_false(truism):
             raise ClaripyBalancerUnsatError
         if Balancer._cardinality(truism.args[0]) == 1:
             # we are down to single-cardinality arguments, so our work is not
@@ -617,6 +666,8 @@ class Balancer:
                 self._handle_comparison(truism)
             case _:
                 log.debug("No handler for operation %s", truism.op)
+
+    _unsigned_op = {"SLT": "ULT", "SLE": "ULE", "SGT": "UGT", "SGE": "UGE"}  # noqa: RUF012
 
     comparison_info = {  # noqa: RUF012
         "ULT": (True, False, True),
@@ -657,6 +708,17 @@ class Balancer:
 
         current_min = int_min
         current_max = int_max
+
+        if self._moved_modulo or not is_unsigned:
+            self._wrapping_keys.add(truism.args[0].hash())
+
+        if self._moved_modulo:
+            # the bound is one end of a range that may wrap around: it cannot be compared with the other limits
+            if is_lt:
+                self._add_upper_bound(truism.args[0], bound_max)
+            else:
+                self._add_lower_bound(truism.args[0], bound_min)
+            return
 
         if is_lt:
             current_max = min(int_max, left_max, bound_max)
